@@ -3,6 +3,7 @@ package checks
 import (
 	"context"
 	"fmt"
+	"github.com/bartossh/Computantis/src/accountant"
 	"github.com/bartossh/Computantis/src/gossip"
 	"github.com/bartossh/Computantis/src/protobufcompiled"
 	"github.com/bartossh/Computantis/src/transaction"
@@ -175,6 +176,9 @@ func c02Worker(w *core.WorkerCtx) {
 	}
 	if w.Batch == 6 || (w.Thorough() && w.Batch%20 == 6) {
 		c02TrustedChild(w)
+	}
+	if w.Batch == 7 || (w.Thorough() && w.Batch%20 == 7) {
+		c02RootTip(w)
 	}
 	n := w.Pick(10, 50)
 	// (a) single node, sequential: the ledger is a single chain, conservation must hold strictly
@@ -661,5 +665,58 @@ func c02TrustedChild(w *core.WorkerCtx) {
 		world.CheckConservation(n)
 		w.R.Count("c02_trusted_children_of_overdrawing_tips", 1)
 		world.NontrivFor("C02", fmt.Sprintf("trusted-child/%s/child-refused=%v", entry, cerr != nil))
+	}
+}
+
+// c02RootTip: a gossiped vertex that overdraws its issuer hangs off an old vertex and is still a tentative tip when the
+// node truncates; the truncation cuts its parent away, so that the tip has no live parent left (a second root of the
+// graph). The node's next own vertices choose their parents among the tips: the overdrawing one must be dropped as
+// always - over the confirmed vertices, live and checkpointed, no wallet is overdrawn.
+func c02RootTip(w *core.WorkerCtx) {
+	rng := core.Rand(w.Seed, "C02roottip", w.Batch)
+	for variant := 0; variant < w.Pick(2, 4); variant++ {
+		desc := fmt.Sprintf("c02 an overdrawing tentative tip whose parent is cut away by a truncation, variant %d seed=%d batch=%d", variant, w.Seed, w.Batch)
+		w.Mark("%s", desc)
+		world := ledger.NewWorld(rng, w.R, []string{"C02"}, allSnapOracles, desc)
+		if _, err := ledger.Setup(world, ledger.Profile{Nodes: 1, Users: 4, SupplyClass: 0, Delivery: "lockstep"}); err != nil {
+			w.R.Inconc("setup failed: " + err.Error())
+			world.Close()
+			return
+		}
+		n := world.Nodes[0]
+		u := world.Users
+		f := world.NewTrx(u[0], u[1].Addr, spice.Melange{Currency: 10}, nil)
+		world.Propose(n, &f, "fund")
+		var old accountant.Vertex
+		for i := 0; i < 6; i++ {
+			t := world.NewTrx(u[0], u[2].Addr, spice.Melange{}, []byte(fmt.Sprintf("early %d", i)))
+			if v, err := world.Propose(n, &t, "early"); err == nil && i == 2+variant%3 {
+				old = v
+			}
+		}
+		world.Quiet = true
+		for i := 0; i < 1040+rng.Intn(30); i++ {
+			t := world.NewTrx(u[0], u[2+i%2].Addr, spice.Melange{}, []byte(fmt.Sprintf("contract %d", i)))
+			world.Propose(n, &t, "grow")
+		}
+		world.Quiet = false
+		world.Observe(n, ledger.OpInfo{Kind: "milestone", OK: true})
+		ot := world.NewTrx(u[1], u[3].Addr, spice.Melange{Currency: 50}, nil)
+		ov := ledger.ForgeVertex(world.Sealers[0], ot, old.Hash, old.Hash, old.Weight+1, world.Now())
+		derr := world.Deliver(n, &ov, "overdrawing vertex on an old parent")
+		cut := false
+		for a := 0; a < 12 && !cut; a++ {
+			world.Truncate(n)
+			_, cut = n.Prev.Stored[old.Hash]
+		}
+		_, stillTip := n.Prev.Leaves[ov.Hash]
+		for k := 0; k < 3; k++ {
+			m := world.NewTrx(u[0], u[2].Addr, spice.Melange{}, []byte(fmt.Sprintf("after the truncation %d", k)))
+			world.Propose(n, &m, "the node's next own vertex")
+		}
+		world.CheckConservation(n)
+		w.R.Count("c02_tentative_tips_orphaned_by_a_truncation", 1)
+		world.NontrivFor("C02", fmt.Sprintf("root-tip/admitted=%v/parent-cut=%v/still-a-tip-after-the-cut=%v", derr == nil, cut, stillTip))
+		world.Close()
 	}
 }
